@@ -38,6 +38,17 @@ pub(crate) struct Root {
 thread_local! {
     /// The current reactive root.
     static GLOBAL_ROOT: Cell<Option<&'static Root>> = const { Cell::new(None) };
+    /// The root whose computation is the innermost one running with tracking on this thread (null
+    /// if the innermost context is untracked). Only reads of signals of this root are recorded.
+    ///
+    /// Which computation is tracking is a fact about the call stack of the thread, not about a
+    /// root: `untrack` may be called while another root is the current one.
+    static TRACKING_ROOT: Cell<*const Root> = const { Cell::new(std::ptr::null()) };
+}
+
+/// Whether reads of signals of `root` are tracked right now.
+pub(crate) fn is_tracking(root: &Root) -> bool {
+    TRACKING_ROOT.with(|t| std::ptr::eq(t.get(), root))
 }
 
 impl Root {
@@ -109,7 +120,9 @@ impl Root {
     /// accessed and track them in a dependency list.
     pub fn tracked_scope<T>(&self, f: impl FnOnce() -> T) -> (T, DependencyTracker) {
         let prev = self.tracker.replace(Some(DependencyTracker::default()));
+        let prev_tracking = TRACKING_ROOT.with(|t| t.replace(self as *const Root));
         let ret = f();
+        TRACKING_ROOT.with(|t| t.set(prev_tracking));
         (ret, self.tracker.replace(prev).unwrap())
     }
 
@@ -464,10 +477,11 @@ pub fn untrack<T>(f: impl FnOnce() -> T) -> T {
 }
 
 /// Same as [`untrack`] but for a specific [`Root`].
-pub(crate) fn untrack_in_scope<T>(f: impl FnOnce() -> T, root: &'static Root) -> T {
-    let prev = root.tracker.replace(None);
+pub(crate) fn untrack_in_scope<T>(f: impl FnOnce() -> T, _root: &'static Root) -> T {
+    // Nothing is tracked, whichever root the signals that are read belong to.
+    let prev = TRACKING_ROOT.with(|t| t.replace(std::ptr::null()));
     let ret = f();
-    root.tracker.replace(prev);
+    TRACKING_ROOT.with(|t| t.set(prev));
     ret
 }
 
